@@ -2,6 +2,8 @@ import ChythonModel.Model.C15Compose
 import ChythonModel.Model.C15Read
 import ChythonModel.Model.C15CgrTokens
 import ChythonModel.Model.C15Hash
+import ChythonModel.Model.C15Radicals
+import ChythonModel.Model.C15Mapping
 /-!
 Line-protocol driver for C15. One request per line (ints only), one response line.
 
@@ -12,6 +14,9 @@ Line-protocol driver for C15. One request per line (ints only), one response lin
   read         cp..                                    role strings of `smiles(text)` (reaction branch)
   atok         z iso charge pcharge rad prad           `CGRSmiles._format_atom`
   btok         order porder (0 = None)                 `CGRSmiles._format_bond`
+  readrad      ntext cp.. ntbl (len cp.. count)*       role strings + `is_radical` flags after the CXSMILES radical stage of
+                                                       `smiles(text)`; table = atom count of every `.`-piece (real parser)
+  mapfix       remap ignore nR nP nA (len m..)*        `postprocess_parsed_reaction`: final atom numbers per role / molecule
 -/
 open ChythonModel.Py ChythonModel.Model ChythonModel.Model.C15
 
@@ -72,8 +77,62 @@ def takeSigs : Nat → List Int → Option (List MolSig × List Int)
 def showStrs (l : List Str) : String :=
   toString l.length ++ String.join (l.map fun s => " " ++ toString s.length ++ String.join (s.map fun c => " " ++ toString c))
 
+def takeTbl : Nat → List Int → Option (List (Str × Nat) × List Int)
+  | 0, xs => some ([], xs)
+  | k+1, xs => do
+      let (s, x1) ← takeNats xs
+      match x1 with
+      | n :: x2 =>
+        let (t, x3) ← takeTbl k x2
+        some ((s, n.toNat) :: t, x3)
+      | [] => none
+
+def takeLists : Nat → List Int → Option (List (List Nat) × List Int)
+  | 0, xs => some ([], xs)
+  | k+1, xs => do
+      let (l, x1) ← takeNats xs
+      let (ls, x2) ← takeLists k x1
+      some (l :: ls, x2)
+
+def showFlags (l : List (List Bool)) : String :=
+  toString l.length ++ String.join (l.map fun fl => " " ++ toString fl.length ++
+    String.join ((fl.zipIdx.filter (·.1)).map fun bi => " " ++ toString bi.2) ++ " ;")
+
+def showLists (l : List (List Nat)) : String :=
+  toString l.length ++ String.join (l.map fun m => " " ++ toString m.length ++ String.join (m.map fun x => " " ++ toString x))
+
 def handle (line : String) : String :=
   match words line with
+  | "readrad" :: rest =>
+    match parseInts? rest with
+    | some xs =>
+      match (do let (t, x1) ← takeNats xs
+                match x1 with
+                | k :: x2 => if k < 0 then none else
+                  let (tbl, x3) ← takeTbl k.toNat x2
+                  some (t, tbl, x3)
+                | [] => none) with
+      | some (t, tbl, []) =>
+        match readRxnRad (natomsOf tbl) t with
+        | .molecule => "mol"
+        | .error e => "err " ++ e
+        | .roles r a p fr fa fp =>
+          "ok R " ++ showStrs r ++ " A " ++ showStrs a ++ " P " ++ showStrs p ++
+          " FR " ++ showFlags fr ++ " FA " ++ showFlags fa ++ " FP " ++ showFlags fp
+      | _ => "bad readrad"
+    | none => "bad ints"
+  | "mapfix" :: rest =>
+    match parseInts? rest with
+    | some (rm :: ig :: nR :: nP :: nA :: xs) =>
+      if nR < 0 ∨ nP < 0 ∨ nA < 0 then "bad counts" else
+      match (do let (r, x1) ← takeLists nR.toNat xs; let (p, x2) ← takeLists nP.toNat x1
+                let (a, x3) ← takeLists nA.toNat x2; some (r, p, a, x3)) with
+      | some (r, p, a, []) =>
+        match postprocessRxn (rm != 0) (ig != 0) r p a with
+        | .ok o => "ok R " ++ showLists o.reactants ++ " P " ++ showLists o.products ++ " A " ++ showLists o.reagents
+        | .error e => "err " ++ e
+      | _ => "bad lists"
+    | _ => "bad ints"
   | "compose" :: rest =>
     match parseInts? rest with
     | none => "bad ints"
